@@ -368,3 +368,18 @@ proof!(c05_abs_query_filter, 6, {
     forget(atom);
     forget(sr);
 });
+
+// more formula shapes: !a && !b ; a && (b || c) ; !(a && b) || (c && d)
+c05_bool!(c05_bool_not_not, |a, b, c, d, c0, c1, c2, c3, and0, or0, or1| {
+    and0[0] = atom!(c0, !a);
+    and0[1] = atom!(c1, !b);
+    Filter::And(cvec(&mut and0, 2))
+}, !a && !b);
+c05_bool!(c05_bool_and_paren_or, |a, b, c, d, c0, c1, c2, c3, and0, or0, or1| {
+    or0[0] = atom!(c1, b);
+    or0[1] = atom!(c2, c);
+    or1[0] = Filter::Or(cvec(&mut or0, 2));
+    and0[0] = atom!(c0, a);
+    and0[1] = Filter::Atom(FilterAtom::Filter { expr: tbox(&mut or1[0]), not: false });
+    Filter::And(cvec(&mut and0, 2))
+}, a && (b || c));
